@@ -69,6 +69,14 @@ CLAIMS = {
         "with the caller's nxseg, overlap and estimator; and FDD_MS/EFDD_MS/pLSCF_MS.run forward data, fs, nxseg, method and pov.",
    note="Proof modulo scipy/numpy.linalg (uninterpreted kernels, matrix-term level) and modulo the SD_est contract proved under C13; the identical-reference corollary is a lemma over this structure.",
    design="6 (C04)", technique="contract-based deductive verification: AST->VC generation (pyvc) + z3, matrix terms with an extensionality lemma, loop invariant; native replay"),
+ "C18": dict(
+   text="Deductive proof over the reals, for shapes of arbitrary (symbolic) length: gen.MAC (vectors and matrices, loop invariants), gen.MCF, gen.MPC, gen.MSF equal their defining "
+        "formulas over lazy sums, executed from the real source; the property's clauses are lemma obligations over those formulas - MAC, MCF, MPC in [0,1], MAC table orientation and "
+        "MAC(A,X) = MAC(X,A)^T, invariance of MAC/MCF/MPC under any non-zero complex factor, MAC = 1 / MCF = 0 / MPC = 1 on collinear shapes, MSF(v, c v) = c; for gen.MPD the real code's "
+        "result is proved finite and in [0, pi/2] for every non-zero shape (zero components included) and equal to 0 on complex multiples of real vectors.",
+   note="Trusted: Cauchy-Schwarz for sums, svd/eigvals/cov contracts, arccos/sqrt as axiomatised uninterpreted functions, lazy-sum calculus. Reals for floats. One open finding (MPC of a "
+        "constant real vector times a complex number is NaN) is listed in known_findings.jsonl.",
+   design="6 (C18)", technique="contract-based deductive verification: functional contracts + lemma obligations (pyvc AST->VC, z3 NRA with staged universal lemmas)"),
 }
 NOT_APPLICABLE = {
  "C07": "accuracy tolerance (2.5 % / 15 %) of a floating-point FFT/peak-picking/regression pipeline: no contract over exact reals can state or discharge it (DESIGN.md section 8); its scale-invariance clause is covered under C08",
